@@ -42,7 +42,6 @@ import (
 
 var c15AssetZ = fixc.Hash("c15-asset-z")
 
-
 // ---------------------------------------------------------------- key helpers
 
 var c15Prefixes = []string{
@@ -1321,7 +1320,7 @@ func c15PartHistories(c *verifmc.Check, name string, classes []string, maxSub, d
 			return e
 		},
 		Close: func(e *c15Env) {},
-		Key:       func(e *c15Env) string { return name + ":" + e.lastKey },
+		Key:   func(e *c15Env) string { return name + ":" + e.lastKey },
 		Apply: func(e *c15Env, ev int, replaying bool, report func(key, desc string)) bool {
 			slot, si := ev/len(subs), ev%len(subs)
 			// chains are interchangeable: introduce them in order
